@@ -18,9 +18,9 @@ IdStart     == TypeLetters \cup {"a", "s", "v", "U2"}
 IdCont      == IdStart \cup Digits \cup {"_", "C2"}   \* "C2": XID_Continue, not XID_Start (U+00B7)
 Aligns      == {"<", "^", ">"}
 Signs       == {"+", "-"}
-Ws          == {" ", "T"}
+Ws          == {" ", "T", "W3"}     \* "W3": a 3-byte whitespace character (U+3000)
 
-ByteWidth(c) == CASE c \in {"U2", "C2"} -> 2 [] c = "U3" -> 3 [] c = "U4" -> 4 [] OTHER -> 1
+ByteWidth(c) == CASE c \in {"U2", "C2"} -> 2 [] c \in {"U3", "W3"} -> 3 [] c = "U4" -> 4 [] OTHER -> 1
 
 At(s, i) == IF i >= 1 /\ i <= Len(s) THEN s[i] ELSE "EOF"
 
